@@ -20,8 +20,8 @@
      != true; division or modulo by zero prints a message and yields void; INT64_MIN / -1 traps (SIGFPE kills nanoc).
    * string literals keep their escape sequences verbatim (the lexer does not translate them, and the evaluator prints
      the token text).
-   * array literal [e1, .., en] (AST_ARRAY_LITERAL): the FIRST element is evaluated once "to determine the element type",
-     then ALL elements, e1 included, are evaluated left to right and stored: e1 is evaluated twice.  [] is an empty
+   * array literal [e1, .., en] (AST_ARRAY_LITERAL): the elements are evaluated once each, left to right, and stored (the
+     first one also decides the element type; since fix 38fa340 it is no longer evaluated a second time).  [] is an empty
      int array.  (at a i) = builtin_at: arguments left to right; an index outside 0 <= i < length prints
      "Runtime Error: Array index ... out of bounds" and calls exit(1): nanoc itself ends there (IOob); a non-int index
      or a non-array yields void.  (array_length a) of a non-array yields void.  Arrays are truthy; print_value writes
@@ -196,10 +196,7 @@ Fixpoint ieval (fuel : nat) (e : expr) (w : world) {struct fuel} : ires value :=
                     | _ => IUnmodelled end)
               end
           end)
-    | EArr [] => IOk (VArr []) w
-    | EArr (a :: r) =>
-        (* the first element is evaluated once for its type, then every element (the first again) in order *)
-        ibind (ieval fuel' a w) (fun _ w0 => ibind (iargs_with (ieval fuel') (a :: r) w0) i_arr)
+    | EArr es => ibind (iargs_with (ieval fuel') es w) i_arr          (* every element once, left to right *)
     | EAt a i =>
         ibind (ieval fuel' a w) (fun va w1 => ibind (ieval fuel' i w1) (fun vi w2 => i_at va vi w2))
     | ELen a => ibind (ieval fuel' a w) (fun va w1 => IOk (i_len va) w1)
